@@ -142,8 +142,12 @@ def one_graph(drv, g, desc, res, tag, fix_first_pose):
     b_model = tk.flts(n)
     H_model = tk.flts(n * n).reshape(n, n)
     res["cases"] += 1
-    if not np.array_equal(H_impl != 0, H_model != 0) and not np.array_equal(np.isnan(H_impl), np.isnan(H_model)):
-        bad("fill-pattern", impl=(H_impl != 0).astype(int).tolist(), model=(H_model != 0).astype(int).tolist(), fixed=fixed)
+    # (entries at rounding level relative to the largest entry count as zero on both sides: see harness/graphiter.py)
+    with np.errstate(invalid="ignore"):
+        nz = lambda M_: np.abs(M_) > 1e-12 * (1.0 + (np.nanmax(np.abs(M_)) if np.size(M_) and not np.all(np.isnan(M_)) else 0.0))
+        pat_differs = not np.array_equal(nz(H_impl), nz(H_model))
+    if pat_differs and not np.array_equal(np.isnan(H_impl), np.isnan(H_model)):
+        bad("fill-pattern", impl=nz(H_impl).astype(int).tolist(), model=nz(H_model).astype(int).tolist(), fixed=fixed)
         return
     if not (close(b_impl, b_model) and close(H_impl, H_model)):
         bad("fill-values", b_impl=b_impl.tolist(), b_model=b_model.tolist(), fixed=fixed)
